@@ -562,6 +562,75 @@ fn select_level(run: &mut Run, rng: &mut Rng, n: usize) {
     }
 }
 
+// ---------------------------------------------------------------------------------------------
+// local time zones (child processes: chrono's local zone is fixed per process). `date_trunc('year'|'month'|'day', ts)`
+// must give the START of that period of ts IN LOCAL TIME: an instant not after ts whose local civil fields are the
+// period's first moment (same year / month / day as ts, the rest at its minimum). Where that local time does not exist
+// (DST gap at midnight) an error is the documented answer. Judged from the result's own local fields — not by
+// re-computing what chrono computes.
+// ---------------------------------------------------------------------------------------------
+
+pub fn tz_child(seed: u64, n: usize) {
+    use chrono::{Datelike, Local, TimeZone, Timelike};
+    let mut rng = Rng::new(seed ^ 0x037a);
+    let mut checks = 0usize;
+    for _ in 0..n {
+        // instants spread over several years, denser around the usual switch-over months
+        let base = 1_500_000_000i64 + rng.range(0, 250_000_000);
+        let secs = if rng.chance(1, 3) { base - base % 86_400 + rng.range(-7_200, 7_200) } else { base };
+        let ts = match Local.timestamp_opt(secs, (rng.below(3) as u32) * 500_000_000 % 1_000_000_000).single() { Some(t) => t, None => continue };
+        let part = *rng.pick(&["year", "month", "day"]);
+        let e = call(Function::TruncateTimestamp, vec![ExpressionTree::Value(Value::String(part.to_owned())), ExpressionTree::Value(Value::Timestamp(ts))]);
+        checks += 1;
+        let desc = format!("date_trunc('{}', {}) [epoch {}]", part, ts, secs);
+        match eval_real(&[], &e) {
+            Ev::Ok(Value::Timestamp(r)) => {
+                let first = r.hour() == 0 && r.minute() == 0 && r.second() == 0 && r.nanosecond() == 0
+                    && r.year() == ts.year()
+                    && match part { "year" => r.month() == 1 && r.day() == 1, "month" => r.month() == ts.month() && r.day() == 1, _ => r.month() == ts.month() && r.day() == ts.day() };
+                if !first || r > ts {
+                    println!("FAIL date-trunc-not-local-period-start :: {} gave {} which is not the first moment of that local {}", desc, r, part);
+                }
+            }
+            Ev::Ok(v) => println!("FAIL date-trunc-not-a-timestamp :: {} gave {}", desc, v),
+            Ev::Err(_) => {
+                // only when the local start of the period does not exist
+                let (y, m, d) = match part { "year" => (ts.year(), 1, 1), "month" => (ts.year(), ts.month(), 1), _ => (ts.year(), ts.month(), ts.day()) };
+                if Local.with_ymd_and_hms(y, m, d, 0, 0, 0).single().is_some() {
+                    println!("FAIL date-trunc-error-although-start-exists :: {}", desc);
+                }
+            }
+            Ev::Panic(m) => println!("FAIL panic:date-trunc :: {} panicked: {}", desc, m.replace('\n', " ")),
+        }
+    }
+    println!("CHECKS {}", checks);
+}
+
+fn tz_stream(run: &mut Run, p: &Params) {
+    let zones: &[&str] = if p.tier_thorough { &["CET-1CEST,M3.5.0,M10.5.0/3", "America/Sao_Paulo", "Europe/London", "Australia/Lord_Howe", "America/St_Johns", "Asia/Kathmandu"] } else { &["CET-1CEST,M3.5.0,M10.5.0/3", "America/Sao_Paulo"] };
+    let exe = match std::env::current_exe() { Ok(e) => e, Err(_) => return };
+    for zone in zones {
+        let out = std::process::Command::new(&exe).env("TZ", zone).arg("c03tz").arg(p.seed.to_string()).arg(p.n(400, 20_000).to_string()).output();
+        match out {
+            Ok(o) => {
+                let text = String::from_utf8_lossy(&o.stdout).to_string();
+                for l in text.lines() {
+                    if let Some(rest) = l.strip_prefix("FAIL ") {
+                        let mut it = rest.splitn(2, " :: ");
+                        let class = it.next().unwrap_or("tz").to_owned();
+                        run.fail(format!("TZ={} {}", zone, it.next().unwrap_or("")), &class, "under this local time zone".to_owned());
+                    }
+                    if let Some(c) = l.strip_prefix("CHECKS ") { run.oracle_checks += c.trim().parse().unwrap_or(0); }
+                }
+                run.count(&format!("tz:{}", zone));
+                if !o.status.success() { run.fail(format!("TZ={}", zone), "panic:tz-child-died", format!("child exit {:?}", o.status)); }
+            }
+            Err(e) => run.notes.push(format!("could not start TZ child: {}", e)),
+        }
+    }
+    run.notes.push("local time zones: date_trunc to year / month / day judged by the local civil fields of its result in child processes with DST zones".to_owned());
+}
+
 pub fn run(p: &Params) -> Run {
     let mut run = Run::new("C03");
     let mut rng = Rng::new(p.seed ^ 0x03);
@@ -599,6 +668,7 @@ pub fn run(p: &Params) -> Run {
     boundary_cases(&mut run, &env, p.tier_thorough);
     let n_stmt = p.n(1200, 40_000);
     select_level(&mut run, &mut rng, n_stmt);
+    tz_stream(&mut run, p);
     run.notes.push("statement level: SELECT lists mixing columns, qualified columns, expressions, `input`, `*`, aliases (also clashing ones) with WHERE; names checked against alias|column|p<i>; whole-run output = concatenation of the per-line outputs; three-way with Spec.Select".to_owned());
     run.notes.push("expression level: type-directed generator (≈ 80% well-typed, 20% with ill-typed sub-terms) + operator × type × type table".to_owned());
     // the end-to-end stream: the same property seen from raw texts and raw file bytes (`e2e.rs`, Lean `Pipeline.runText`)
